@@ -198,7 +198,11 @@ func (s *fileState) exec(c *ctx, op string) string {
 		if s.h6 == nil {
 			return ""
 		}
-		res := guard(func() string { return s.q6(f[1], f[2] == "1", atoi(f[3]), byte(c.count)) })
+		relay := "-"
+		if len(f) > 4 {
+			relay = f[4]
+		}
+		res := guard(func() string { return s.q6r(f[1], f[2] == "1", atoi(f[3]), byte(c.count), relay) })
 		c.emit(op, res)
 		return res
 	case "fhammer":
@@ -225,6 +229,18 @@ func (s *fileState) q4(mac []byte) string {
 }
 
 func (s *fileState) q6(machex string, hasIANA bool, depth int, tag byte) string {
+	r := s.q6r(machex, hasIANA, depth, tag, "-")
+	if i := strings.Index(r, " ; "); i >= 0 && strings.HasPrefix(r, "xm ") {
+		return r[i+3:]
+	}
+	return r
+}
+
+// q6r: as q6, with what the innermost relay says about the client's hardware address
+// ("-": nothing; "L<mac>": a Client Link-Layer Address option, RFC 6939; "E<mac>": the peer address
+// is the EUI-64 link-local address of <mac>). The result starts with the library's answer to
+// dhcpv6.ExtractMAC on the whole datagram ("xm <hex|-> ; "), which is what the plugin must key on.
+func (s *fileState) q6r(machex string, hasIANA bool, depth int, tag byte, relay string) string {
 	{
 		{
 			f := []string{"fq6", machex, "0", fmt.Sprint(depth)}
@@ -245,33 +261,48 @@ func (s *fileState) q6(machex string, hasIANA bool, depth int, tag byte) string 
 			}
 			var d dhcpv6.DHCPv6 = m
 			for i := 0; i < atoi(f[3]); i++ {
-				d, _ = dhcpv6.EncapsulateRelay(d, dhcpv6.MessageTypeRelayForward, net.ParseIP("2001:db8::1"), net.ParseIP("2001:db8::2"))
+				peer := net.ParseIP("2001:db8::2")
+				if i == 0 && strings.HasPrefix(relay, "E") {
+					hw := unhx(relay[1:])
+					if len(hw) == 6 {
+						peer = net.IP{0xfe, 0x80, 0, 0, 0, 0, 0, 0, hw[0] ^ 2, hw[1], hw[2], 0xff, 0xfe, hw[3], hw[4], hw[5]}
+					}
+				}
+				rr, _ := dhcpv6.EncapsulateRelay(d, dhcpv6.MessageTypeRelayForward, net.ParseIP("2001:db8::1"), peer)
+				if i == 0 && strings.HasPrefix(relay, "L") {
+					rr.AddOption(dhcpv6.OptClientLinkLayerAddress(iana.HWTypeEthernet, net.HardwareAddr(unhx(relay[1:]))))
+				}
+				d = rr
 			}
 			d, err := dhcpv6.FromBytes(d.ToBytes())
 			if err != nil {
 				return "unbuildable"
 			}
+			xm := "xm -"
+			if hw, err := dhcpv6.ExtractMAC(d); err == nil {
+				xm = "xm " + hx(hw)
+			}
 			resp, _ := dhcpv6.NewAdvertiseFromSolicit(m)
 			out, stop := s.h6(d, resp)
 			if out == nil {
-				return "nil"
+				return xm + " ; nil"
 			}
 			if stop {
-				return "stop"
+				return xm + " ; stop"
 			}
 			ias := out.(*dhcpv6.Message).Options.IANA()
 			if len(ias) == 0 {
-				return "pass"
+				return xm + " ; pass"
 			}
 			if len(ias) > 1 || len(ias[0].Options.Addresses()) != 1 {
-				return "malformed-iana"
+				return xm + " ; malformed-iana"
 			}
 			a := ias[0].Options.Addresses()[0]
 			ok := "iaid-ok"
 			if ias[0].IaId != iaid {
 				ok = "iaid-wrong"
 			}
-			return fmt.Sprintf("iana %s %s %d %d", hx(a.IPv6Addr.To16()), ok, int64(a.PreferredLifetime/time.Second), int64(a.ValidLifetime/time.Second))
+			return xm + " ; " + fmt.Sprintf("iana %s %s %d %d", hx(a.IPv6Addr.To16()), ok, int64(a.PreferredLifetime/time.Second), int64(a.ValidLifetime/time.Second))
 		}
 	}
 }
@@ -420,7 +451,14 @@ func genFile(c *ctx) {
 				if c.rng.Intn(8) == 0 {
 					m = "-"
 				}
-				hist = append(hist, fmt.Sprintf("fq6 %s %d %d", m, b2i(c.rng.Intn(5) != 0), c.rng.Intn(3)/2))
+				depth := c.rng.Intn(3) / 2
+				relay := "-"
+				if c.rng.Intn(3) == 0 {
+					// a relay that reports the client's hardware address itself: the same as, or another than, the one in the client id
+					depth = 1 + c.rng.Intn(2)
+					relay = []string{"L", "E"}[c.rng.Intn(2)] + hx(macs[c.rng.Intn(len(macs))][:6])
+				}
+				hist = append(hist, fmt.Sprintf("fq6 %s %d %d %s", m, b2i(c.rng.Intn(5) != 0), depth, relay))
 			}
 		}
 		pending = append(pending, hist...)
